@@ -13,7 +13,7 @@ from vlib import factbase as fb
 from vlib import q
 from . import arms as A
 from . import c15
-from .common import ctx, loc, chain_up, pname
+from .common import ctx, loc, chain_up, pname, value_leaves
 
 LOSSY = {"filter", "filter_map", "skip", "take", "step_by", "take_while", "skip_while", "nth", "last", "find", "find_map", "dedup", "truncate", "rev", "pop", "remove"}
 
@@ -142,8 +142,15 @@ def rule_r1(facts, rep, rid="C09-R1"):
             se = _field(lit, "sequential_ids")
             n_cfg += 1
             key = "%s|%s-literal|%d" % (f.def_, which, sum(1 for y in fb.walk(f.body) if y.get("k") == "struct" and y.get("def") == lit.get("def") and (y.get("s") or [0])[0] < (lit.get("s") or [0])[0]))
-            val = fb.show(se) if se is not None else "(default)"
-            off = se is None or val.endswith("None") or val.replace(" ", "").endswith("Some(false)")
+            # the value(s) the field can take, through locals / branches / destructured tuples (`let (state, sequential_ids) = match params.state {..}`)
+            leaves = value_leaves(c, se) if se is not None else [None]
+            n_cfg += len(leaves) - 1
+            val = " | ".join(sorted(set(fb.show(l) if l is not None else "(default)" for l in leaves)))
+
+            def _off(l):
+                v = fb.show(l) if l is not None else ""
+                return l is None or v.endswith("None") or v.replace(" ", "").endswith("Some(false)")
+            off = all(_off(l) for l in leaves)
             if which == "ServerParams":
                 st = _field(lit, "state")
                 st_off = st is None or fb.show(st).endswith("None")
@@ -155,19 +162,36 @@ def rule_r1(facts, rep, rid="C09-R1"):
             if off:
                 rep.ok(rid, key, "sequential_ids = %s" % val, loc(f, lit))
                 continue
-            guards = [p for p in c.parents(lit) if p.get("k") == "if" and p["c"].get("k") == "letx" and "state" in fb.show(p["c"].get("init")) and any(y is lit for y in fb.walk(p["t"]))]
-            if guards:
-                rep.ok(rid, key, "sequential_ids = %s only on the `if let Some(state) = params.state` edge (in-memory test configuration)" % val, loc(f, lit))
+
+            def _on_state_edge(l):
+                child = l
+                for p in c.parents(l):
+                    if p.get("k") == "if" and p["c"].get("k") == "letx" and child is p.get("t") and "state" in fb.show(p["c"].get("init")) and _is_some(p["c"].get("pat")):
+                        return True
+                    if p.get("k") == "match" and "state" in fb.show(p["e"]):
+                        for arm in p["arms"]:
+                            if arm.get("body") is child and _is_some(arm["pat"]):
+                                return True
+                    child = p
+                return False
+            if all(_off(l) or _on_state_edge(l) for l in leaves):
+                rep.ok(rid, key, "sequential_ids = %s: switched on only on the `Some(state) = params.state` edge (in-memory test configuration)" % val, loc(f, lit))
             else:
                 rep.violation(rid, key, "sequential keys are switched on (%s) outside the in-memory test configuration: Graph::random_key then returns keys().len()+1 without a freshness test, "
                               "so an extraction can overwrite an existing note" % val, loc(f, lit))
-    rep.floor(rid, "ServerConfig / ServerParams literals", n_cfg, 3)
+    rep.floor(rid, "ServerConfig / ServerParams literals (values of sequential_ids)", n_cfg, 3)
     db = [x for f in facts.body_fns() if f.crate == "iwes" and "::tests::" not in f.def_ for x in fb.walk(f.body) if x.get("k") == "call" and (fb.callee(x) or "").endswith("Database::new")]
     key = "Database::new|sequential-flag-from-config"
     if len(db) == 1 and "sequential_ids" in fb.show(db[0]["args"][1]) and "true" not in fb.show(db[0]["args"][1]):
         rep.ok(rid, key, "Database::new(.., config.sequential_ids.unwrap_or(false), ..)")
     else:
         rep.violation(rid, key, "Database::new is not given config.sequential_ids (defaulting to false) as its sequential flag: %s" % [fb.show(x["args"][1]) for x in db])
+
+
+def _is_some(p):
+    while isinstance(p, dict) and p.get("k") == "p_ref":
+        p = p.get("pat")
+    return isinstance(p, dict) and p.get("k") == "p_tstruct" and fb.last_seg(fb.norm(p.get("def") or "")) == "Some"
 
 
 def _cs(fn, e, maxdepth=80):
